@@ -65,6 +65,8 @@ def cases(tier, seed):
         for mw, sm, cm in itertools.product(mws, ("eager", "rendezvous", "threshold"), ("full", "minimal")):
             if tier == "quick" and (sm == "threshold" or (cm == "minimal" and sm == "rendezvous")):
                 continue
+            if prog.startswith("refuse-") and (mw not in (None, 2) or sm == "threshold" or cm == "minimal"):
+                continue
             if prog.endswith("+p") and (mw not in (None, 2) or sm == "threshold" or cm == "minimal"):
                 continue  # progress variants: a reduced set of modes
             if size == 4 and (sm == "threshold" or cm == "minimal"):
@@ -219,7 +221,20 @@ def run_case(case):
                 raise RuntimeError(f"execution cap hit for {case}")
             # verdict of this execution
             errs = [e for e in res["errors"] if e is not None]
-            if res["deadlock"] is not None:
+            if prog.startswith("refuse-"):
+                outs_ = [r for r in res["results"] if r is not None]
+                surfaced = any(str(r).startswith("raised:") for r in outs_)
+                if res["results"][0] == "returned" or (outs_ and all(r == "returned" for r in outs_)):
+                    verdict = ("faulty-request-accepted", f"a request that the single process refuses ({case['baseline']}) "
+                               f"returns normally under MPI: {res['results']}")
+                elif res["deadlock"] is None and outs_ and all(str(r).startswith("raised:") for r in outs_) and len(outs_) == size:
+                    verdict = ("ok", "")
+                    counters["refused"] += 1
+                else:
+                    who = [i for i, r in enumerate(res["results"]) if str(r).startswith("raised:")]
+                    verdict = ("error-not-on-all-ranks", f"the error is raised on rank(s) {who} only, the other ranks block forever: "
+                               f"{res['deadlock']}")
+            elif res["deadlock"] is not None:
                 verdict = ("deadlock", f"ranks blocked forever: {res['deadlock']}")
             elif errs:
                 names = sorted({type(e[0]).__name__ + ": " + str(e[0])[:80] for e in errs})
